@@ -45,6 +45,18 @@ pub proof fn lemma_rows_disjoint(a: int, b: int, width: int, left: int, count: i
     assert((a + 1) * width <= b * width) by(nonlinear_arith) requires a + 1 <= b, width >= 0;
     assert((a + 1) * width == a * width + width) by(nonlinear_arith);
 }
+/// the arithmetic of re-typing `n` of `c` elements of size `s` as elements of size `t`: the scaled counts never describe more bytes than the source
+pub proof fn lemma_scaled(n: int, c: int, s: int, t: int)
+    requires 0 <= n <= c, 0 <= s, 0 < t
+    ensures 0 <= n * s <= c * s, 0 <= n * s / t, (n * s / t) * t <= n * s, (c * s / t) * t <= c * s, n * s / t <= c * s / t
+{
+    assert(n * s <= c * s) by(nonlinear_arith) requires 0 <= n <= c, 0 <= s;
+    assert(0 <= n * s) by(nonlinear_arith) requires 0 <= n, 0 <= s;
+    let a = n * s; let b = c * s;
+    assert((a / t) * t <= a && 0 <= a / t) by(nonlinear_arith) requires 0 <= a, 0 < t;
+    assert((b / t) * t <= b) by(nonlinear_arith) requires 0 <= b, 0 < t;
+    assert(a / t <= b / t) by(nonlinear_arith) requires 0 <= a <= b, 0 < t;
+}
 """, mod="gui", name="gui_specs")
 
 UNIT = Unit("gui", ["base.rs", "gui.rs"], [
@@ -52,9 +64,21 @@ UNIT = Unit("gui", ["base.rs", "gui.rs"], [
     Stub(EVT, "decompress", impl=r"BitmapEvent", mod="event", verified_in="codec",
          ensures=["r is Ok ==> r->Ok_0@.len() == self.width as int * self.height as int * 4"]),
     gui_specs,
+    # the REAL body of transmute_vec<S, T>: the two scaling statements (`let capacity = ..; let len = ..;`) are verified verbatim; the raw
+    # operations around them are the trusted stand-ins of prelude/gui.rs (rule R5), whose preconditions are std's size-related safety contract
+    Fn(BIN, "transmute_vec", mod="gui", props=["C19"], nloops=0,
+       body_sub=[(r"\bvec\.as_mut_ptr\(\)", "vec_as_mut_ptr(&mut vec)"),
+                 (r"\bvec\.capacity\(\)", "capacity_of(&vec)"),
+                 (r"\bptr as \*mut T\b", "ptr.cast::<T>()"),
+                 (r"\bVec::from_raw_parts\(", "vec_from_raw_parts(")],
+       requires=["vstd::layout::size_of::<T>() > 0"],
+       ensures=[("C19", "length-is-bytes-over-element-size", "r@.len() == vec@.len() * vstd::layout::size_of::<S>() / vstd::layout::size_of::<T>()"),
+                ("C19", "retyped-view-of-the-source", "r@ == retyped::<S, T>(vec@, r@.len())")],
+       pre="let ghost n0 = vec@.len() as int; let ghost c0 = vec_capacity(&vec) as int; let ghost ss = vstd::layout::size_of::<S>() as int; let ghost st = vstd::layout::size_of::<T>() as int;",
+       hints=[(r"let ptr = ", 1, "proof { lemma_scaled(n0, c0, ss, st); }")],
+       claims=[(r"vec_from_raw_parts\(", 1, "proof { assert(len * st <= n0 * ss && capacity * st <= c0 * ss && len <= capacity); }", "before", "C19", "raw-parts-describe-owned-memory")]),
     Fn(BIN, "fast_bitmap_transfer", mod="gui", props=["C19"], nloops=1,
-       body_sub=[(r"unsafe\s*\{", "{"),
-                 (r"copy_nonoverlapping\(data_aligned\.as_ptr\(\)\.offset\(\(src_i\) as isize\), buffer\.as_mut_ptr\(\)\.offset\(dest_i as isize\), count\)", "copy_rows(&data_aligned, src_i, buffer, dest_i, count)")],
+       body_sub=[(r"copy_nonoverlapping\(data_aligned\.as_ptr\(\)\.offset\(\(src_i\) as isize\), buffer\.as_mut_ptr\(\)\.offset\(dest_i as isize\), count\)", "copy_rows(&data_aligned, src_i, buffer, dest_i, count)")],
        ensures=[("C19", "len", "final(buffer)@.len() == old(buffer)@.len()"),
                 ("C19", "inverted-refused", "(bitmap.dest_bottom < bitmap.dest_top || bitmap.dest_right < bitmap.dest_left) ==> r is Err && final(buffer)@ == old(buffer)@"),
                 ("C19", "exact-copy", """r is Ok && (bitmap.dest_right as int) < width ==> exists|img: Seq<u8>| img.len() == bitmap.width as int * bitmap.height as int * 4 &&
@@ -78,5 +102,6 @@ UNIT = Unit("gui", ["base.rs", "gui.rs"], [
                 }
             } }""", "atend"),
               (r"copy_rows\(&data_aligned, src_i, buffer, dest_i, count\)\s*\n\s*\}", 1, "proof { assert(bitmap_dest_right < width ==> painted(buf0, buffer@, width as int, bitmap_dest_top as int, bitmap_dest_left as int, bitmap_dest_bottom - bitmap_dest_top + 1, count as int, bw0, words_le(img))); }"),
+              (r"let data_aligned *: *Vec<u32> = transmute_vec\(data\);", 1, "proof { axiom_retyped_u8_u32(img, img.len() / 4); assert(data_aligned@ =~= words_le(img)); }"),
               ]),
-], uses={"gui": ["use super::event::*;"]})
+], uses={"gui": ["use super::event::*;", "use core::mem::{size_of, forget};"]})
